@@ -155,6 +155,16 @@ func replay(c *runner.Ctx, raw json.RawMessage) {
 	if err != nil {
 		return
 	}
+	if d.Op == "only:info" {
+		// reduced replay for heavy witnesses: box-level decode and Info only
+		m := &meter{c: c, in: in, name: d.Seed, desc: d.Mut, depth: -1}
+		var b mp4.Box
+		m.do("decode-box", "DecodeBoxSR", func() { b, _ = mp4.DecodeBoxSR(0, bits.NewFixedSliceReader(in)) })
+		if b != nil {
+			m.do("info", "Box.Info[all:2]#0", func() { _ = b.Info(io.Discard, "all:2", "", "  ") })
+		}
+		return
+	}
 	exercise(c, in, d.Seed, d.Mut, strings.HasPrefix(d.Op, "tool"), true)
 }
 
